@@ -266,6 +266,19 @@ func runPackage(c *fw.Ctx, idx int, o genOpts, record bool) ([]failure, *pkgMode
 			if !k.count("len(SheetNames())", len(names)) {
 				return
 			}
+			if n := len(names); n >= 2 {
+				sel := []int{n - 1}
+				if n >= 4 {
+					sel = []int{1, n - 1}
+				}
+				xr.TextWithOptions(xlsx.ExtractOptions{Sheets: sel})
+				xr.MarkdownWithOptions(xlsx.ExtractOptions{Sheets: sel})
+				if t, err := xr.Text(); err != nil {
+					k.fail("error/reader-text-after-selection", "xlsx.Reader.Text() after a selective read: %v", err)
+				} else {
+					k.stream("xlsx.Reader.Text() after a selective read", t)
+				}
+			}
 			for j, nm := range names {
 				k.cmp++
 				if nm != k.parts[j].Label {
@@ -295,6 +308,21 @@ func runPackage(c *fw.Ctx, idx int, o genOpts, record bool) ([]failure, *pkgMode
 			defer pr.Close()
 			if !k.count("SlideCount()", pr.SlideCount()) {
 				return
+			}
+			// the same Reader first serves a selection of slides (not a prefix of the
+			// deck): the whole-deck views that follow still present the declared order
+			if n := pr.SlideCount(); n >= 2 {
+				sel := []int{n - 1}
+				if n >= 4 {
+					sel = []int{1, n - 1}
+				}
+				pr.TextWithOptions(pptx.ExtractOptions{IncludeNotes: true, IncludeTitles: true, SlideNumbers: sel})
+				pr.MarkdownWithOptions(pptx.ExtractOptions{IncludeTitles: true, SlideNumbers: sel})
+				if t, err := pr.TextWithOptions(pptx.ExtractOptions{IncludeNotes: true, IncludeTitles: true}); err != nil {
+					k.fail("error/reader-text-after-selection", "pptx.Reader.TextWithOptions(all) after a selective read: %v", err)
+				} else {
+					k.stream("pptx.Reader.TextWithOptions(all slides) after a selective read", t)
+				}
 			}
 			for j := 0; j < pr.SlideCount(); j++ {
 				s, err := pr.Slide(j)
